@@ -59,7 +59,7 @@ def env_model(keys, env, proc):
 VERSIONS = ['3', '3.8', '3.8.0', '3.8.1', '3.9', '3.10', '3.0', '4', '2.7', '3.8.0.0', '3.7.2', '0', '3.8.10', '3.11.0', '3.0.1', '3.10.0.2', '2.0.7']
 VERSIONS_ODD = ['3.8a1', '3.8.post1', '3.8.dev1', '1!3.8', '3.8rc2', '3.9.0b1']
 STRVALS = ['a', 'b', 'ab', '', 'linux', 'win32', 'posix', 'nt', 'darwin', 'é', 'a b', 'x86_64', 'Linux', 'aa', 'a\x00', "it's", 'say "hi"', 'C:\\dir', "it's C:\\dir", "don't\tpanic"]
-EXTRAS = ['a', 'b', 'c', 'A_b', 'a.b', 'dev', 'x-y']
+EXTRAS = ['a', 'b', 'c', 'A_b', 'a.b', 'dev', 'x-y', 'Zstd']
 BAD_EXTRAS = ['a b', '-a', 'é', ' dev', 'dev ', '\tdev', "bob's"]
 VOPS = ['==', '!=', '<', '<=', '>', '>=', '~=']
 SOPS = ['==', '!=', '<', '<=', '>', '>=']
@@ -73,7 +73,13 @@ BOUNDARY_TEXTS = ["python_version not in ''", "python_version in ''", "python_fu
                   # has a case of its own for each)
                   "python_version > '3.7.8'", "python_version >= '3.7.8'", "python_version < '3.7.8'", "python_version <= '3.7.8'", "python_version == '3.7.8'",
                   "python_version != '3.7.8'", "python_version ~= '3.7.8'", "python_version > '3'", "python_version >= '3'", "python_version < '3'", "python_version <= '3'",
-                  "python_version == '3'", "python_version != '3'", "python_version >= '3.7.0'", "python_version < '3.7.0'", "'3.7.8' < python_version", "python_version in '3 3.7'"]
+                  "python_version == '3'", "python_version != '3'", "python_version >= '3.7.0'", "python_version < '3.7.0'", "'3.7.8' < python_version", "python_version in '3 3.7'",
+                  # ~= against literals with trailing zeros and with four segments (the upper bound comes from the literal as written)
+                  "python_full_version ~= '3.8.0'", "python_full_version ~= '3.0.0'", "implementation_version ~= '3.7.2.0'", "python_full_version ~= '3.6.2.1'",
+                  "python_full_version ~= '3.10.0.0'", "'3.8.0' ~= python_full_version", "python_version ~= '3.8.0'", "python_full_version ~= '3.8'", "python_full_version == '3.8.0.*'",
+                  # a string value inside / across the items of a blank-separated right-hand side (substring, not list membership)
+                  "sys_platform in 'linux2 darwin'", "sys_platform not in 'linux2 darwin'", "platform_machine in 'x86_64 AMD64'", "os_name in 'a b'", "'a b' in os_name",
+                  "os_name > 'posix'", "'posix' < os_name", "os_name >= 'posix'", "os_name < 'posix'", "os_name <= 'posix'"]
 
 
 def op_key_grid(deprecated=False):
@@ -409,7 +415,11 @@ def check_parses(ctx, sess, keys, limit=120):
     from . import textmodel
     steps = [st for st in sess.steps if st[0] == 'parse' and st[2] is not None]
     if len(steps) > limit:
-        steps = ctx.rng.sample(steps, limit)
+        # the fixed batteries always, a sample of the rest
+        fixed = set(BOUNDARY_TEXTS) | set(DNF_SHAPES)
+        must = [st for st in steps if st[1] in fixed]
+        rest = [st for st in steps if st[1] not in fixed]
+        steps = must + ctx.rng.sample(rest, min(len(rest), limit))
     tm = textmodel.MarkerTextModel(sess.p, keys)
     for st in steps:
         text, reg, r = st[1], st[2], st[3]
